@@ -278,9 +278,17 @@ def enumerate_candidates(p, ctx=None, ops=None, rich=True):
                             lambda s=s, cfg=cfg, fld=fld, rhs=rhs: S.write_config(p, s.before(), cfg, fld, rhs))
     # replace with known sub-procedures
     for nm2, q in ctx.get("subprocs", {}).items():
+        nbody = len(q.INTERNAL_proc().body)
         for s, depth, path in stmts:
-            if isinstance(s, (C.ForCursor, C.AssignCursor, C.ReduceCursor)):
-                add("replace", f"{loc(s)},{nm2}", lambda s=s, q=q: S.replace(p, s, q), callee=nm2)
+            if isinstance(s, (C.ForCursor, C.AssignCursor, C.ReduceCursor, C.IfCursor)):
+                add("replace", f"{loc(s)},{nm2}", lambda s=s, q=q: S.replace(p, s, q), callee=nm2,
+                    block_len=1, callee_len=nbody)
+                for ext in (1, 2):
+                    blk = s.expand(0, ext)
+                    if len(blk) == 1 + ext:
+                        add("replace", f"{loc(s)}+{ext},{nm2}", lambda blk=blk, q=q: S.replace(p, blk, q),
+                            callee=nm2, block_len=1 + ext, callee_len=nbody)
+        add("replace_all", nm2, lambda q=q: S.replace_all(p, [q]), callee=nm2)
     return out
 
 
